@@ -62,6 +62,13 @@ CHECKS["C20"] = (True, MC, "symbolic execution of the real line-table, range-for
     "line breaks inside declarations) checks the parsed nodes' ranges and the redeclaration diagnostic end to end; labelled non-symbolic.",
     "Trusts z3, the proxy model, the len shim, and PLY's lexpos (offset of a token's first character). The end column is read as an exclusive 1-based bound.", "DESIGN.md 5 (C20)")
 
+CHECKS["C08"] = (True, TV, "translation validation per program: reference interpreter on the prescribed tree vs the real front end + VM on symbolic operands (symx + z3)",
+    "For every ordered pair (and sampled / all triples) of the 13 binary operators, with and without parentheses, in return / assignment / initialiser / += context, "
+    "the program is compiled by the real lexer, parser, passes and lowering and executed on the real VM with symbolic operands; the reference interpreter evaluates the "
+    "tree the statement prescribes and z3 decides per joint path that no operand values distinguish them. A concrete gate compares the shape of the real parse tree "
+    "with the prescribed tree (groupings no values can distinguish) and the IR listing across whitespace layouts.",
+    "Trusts z3, the proxy model (floats as reals), the reference interpreter O1. Operands in [-1000,1000]; float % and literal-after-operator spellings outside.", "DESIGN.md 5 (C08)")
+
 NOT_YET = "check not built yet in this round (see DESIGN.md status); nothing is claimed"
 NA = {
     "C18": "quantifies over hash seeds, processes and compilation histories: none of these is a value flowing through the code, so there is no assertion over symbolic variables for a solver to decide (DESIGN.md section 6)",
